@@ -225,6 +225,27 @@ impl Check for C09Check {
                 let at = g.w.below(clauses.len() + 1);
                 clauses.insert(at, vec![stall]);
             }
+            if g.w.chance(1, 4) {
+                // a committed-choice operator whose head answers once and then searches forever
+                // without a second answer: committing needs the first head answer only, so the
+                // clause (and its siblings) must still deliver
+                let stall = G::Leaf(Leaf {
+                    id: 703,
+                    target: T::V(0),
+                    answers: vec![],
+                    shape: Shape::Chain,
+                    tail: Tail::Stall,
+                    end_latency: 0,
+                });
+                let head = G::Conde(vec![vec![G::Eq(T::V(0), T::I(7998))], vec![stall]]);
+                let op = match g.w.below(3) {
+                    0 => G::Conda(vec![vec![head, G::Succeed], vec![G::Eq(T::V(0), T::I(7997))]]),
+                    1 => G::Condu(vec![vec![head, G::Succeed], vec![G::Eq(T::V(0), T::I(7997))]]),
+                    _ => G::Onceo(vec![head]),
+                };
+                let at = g.w.below(clauses.len() + 1);
+                clauses.insert(at, vec![op]);
+            }
             let body = vec![G::Conde(clauses)];
             (Program { nq: p.nq, defs: p.defs, body }, "infinite-producer")
         } else if kind < 14 {
@@ -313,8 +334,9 @@ impl Check for C09Check {
         if infinite {
             if base.answers.len() < PREFIX {
                 if matches!(base.end, End::WorkCap) {
-                    // no committed-choice operator in these programs: a quantum that eats the
-                    // whole work budget is a search step that does not return
+                    // the only committed-choice operators in these programs have heads that answer
+                    // within a few steps: a quantum that eats the whole work budget is a search
+                    // step (or a look-ahead inside one) that does not return
                     if base.stats.runaway_step || base.stats.quanta.saturating_mul(2_000) < base.stats.work {
                         return CaseResult {
                             verdict: Verdict::Violation {
